@@ -6,8 +6,8 @@ of `wallet/wallet.go` (AttachBlock's previous-hash guard, DetachBlock), as the c
 * Outputs, programs, assets, votes, accounts are small naturals chosen by the harness; an
   output id determines its content (hash commitment) — the harness guarantees it, the
   theorems state what they need of it as hypotheses.
-* `detachUtxos` looks results up with `tx.OriginalOutput` only: vote outputs are never
-  deleted on detach (F14).
+* `detachUtxos` deletes every output of the block by the output's own control program,
+  whatever its entry type (fix 6978c59c of F14).
 * `txInToUtxos` restores inputs with `ValidHeight 0` (F15).
 * `gKind`/`gHeight` are GHOST fields (not in Go's account.UTXO): the consensus UtxoEntry
   type (0 normal, 1 coinbase, 2 vote) and creation height of the output, carried so C25 can
@@ -126,7 +126,7 @@ def attachOps (P : Params) (h : Nat) (t : Tx) : List DbOp :=
   ++ ((t.outs.filterMap (outUtxo P t.coinbase h)).filterMap (owned P)).map DbOp.put
 
 def detachOps (P : Params) (t : Tx) : List DbOp :=
-  t.outs.filterMap (fun o => if o.kind == 0 && P.p2w o.prog then some (DbOp.del o.id) else none)
+  t.outs.filterMap (fun o => if P.p2w o.prog then some (DbOp.del o.id) else none)
   ++ ((t.ins.filterMap inUtxo).filterMap (owned P)).map DbOp.put
 
 def attachTx (P : Params) (h : Nat) (db : DB) (t : Tx) : DB := applyOps (attachOps P h t) db
@@ -202,7 +202,7 @@ def validTxB (P : Params) (t : Tx) (db : DB) : Bool :=
       | some u' => (dbGet u.id db).map core == some (core u')
       | none => !P.p2w u.prog || (dbGet u.id db).isNone)
 
-/-- no vote output of the transaction pays to a wallet program (excludes F14) -/
+/-- no vote output of the transaction pays to a wallet program (informational since fix 6978c59c) -/
 def noOwnedVoteB (P : Params) (t : Tx) : Bool :=
   t.outs.all (fun o => !(o.kind == 1 && P.p2w o.prog && P.owner o.prog != 0))
 
